@@ -105,6 +105,7 @@ def build_app(L, B, seen, how='ctor'):
         b = app.request.body
         seen['type'] = type(b).__name__
         seen['body'] = b.read()
+        seen['bodyobj'] = b
         return 'ok'
 
     @app.route('/forms', method='POST')
@@ -116,6 +117,26 @@ def build_app(L, B, seen, how='ctor'):
         seen['files'] = {k: v.file.read() for k, v in fl.items()}
         return 'ok'
     return app
+
+
+KEPT = []      # (body object of an earlier accepted request that was spooled to disk, its bytes, where)
+
+
+def check_kept(ctx, now):
+    """A body object the application kept from an earlier request (to work on it later) still holds that request's bytes after later requests."""
+    if not KEPT:
+        return
+    obj, data, where = KEPT[0]
+    try:
+        obj.seek(0)
+        got = obj.read()
+    except Exception as e:  # noqa
+        got = f'<raised {e!r}>'
+    ctx.count('kept_spooled_body_reread_after_a_later_request')
+    if got != data:
+        ctx.violation('kept-body-of-an-earlier-request-changed-by-a-later-one', f'kept from {where}; after {now}: {len(got) if isinstance(got, bytes) else got} bytes instead of {len(data)}'
+                      + (f', starting {got[:30]!r}' if isinstance(got, bytes) else ''), {'unit': {'kind': 'note', 'kept_from': where, 'later_request': now}})
+        del KEPT[:]
 
 
 def cell(ctx, app, seen, S_target, L, B, framing, kind, grid=False):
@@ -148,6 +169,11 @@ def cell(ctx, app, seen, S_target, L, B, framing, kind, grid=False):
     where = f'size={S} L={L} B={B} framing={"CL" if framing == "cl" else "chunks of %d" % framing} kind={kind}'
     wit = {'unit': {'kind': 'cell', 'S': S_target, 'L': L, 'B': B, 'framing': framing, 'ckind': kind, 'how': HOW_OF.get(id(app), 'ctor')}}
     ctx.count('limits_given_to_' + HOW_OF.get(id(app), 'ctor'))
+    check_kept(ctx, where)
+    if kind == 'raw' and r.code == 200 and seen.get('type') != 'BytesIO' and seen.get('bodyobj') is not None and len(KEPT) < 1:
+        KEPT.append((seen['bodyobj'], seen.get('body'), where))
+    elif KEPT and ctx.counters.get('kept_spooled_body_reread_after_a_later_request', 0) % 40 == 39:
+        del KEPT[:]        # keep another one now and then
     near = (L is not None and S > L - B - 1) or abs(S - B) <= 1 or S > B
     ctx.case(None if grid else (S, L, B, framing, kind), nontrivial=near)
     if r.escaped is not None or r.problems:
